@@ -307,7 +307,8 @@ c03 = with_shared(_c03, [(_c16, {'C16.O1': 'C03.j'}, 'a routine record is comple
                          (c19, {'C19.F1': 'C03.n'}, 'the frame a call gets has the size its PREPARE declares: the machine appends exactly prepare.count words, so every register operand of the routine lies inside its frame'),
                          (_c02, {'C02.k': 'C03.m'}, 'the generator keeps its tables without undefined behaviour: no reference into a container is used after the element was removed'),
                          (_c08, {'C08.a': 'C03.l', 'C08.b': 'C03.l2'}, 'the debugger rewrites the opcode at every site listed for a location: the listed sites are exactly the marker instructions, so no jump, call or return of the program is ever turned into a marker'),
-                         (_c04, {'C04.e': 'C03.k'}, 'marks are resolved within the routine that uses them and a jump to a mark that routine does not define is rejected, so every jump lands inside its own routine')])
+                         (_c04, {'C04.e': 'C03.k'}, 'marks are resolved within the routine that uses them and a jump to a mark that routine does not define is rejected, so every jump lands inside its own routine'),
+                         (c18, {'C18.P2': 'C03.o'}, 'the callee record a call sequence uses is the one looked up in this compilation: the generator keeps no mutable state (memoised callee, last entry address) between calls')])
 c01 = with_shared(_c01, [(c14, {'C14.S4': 'C01.r'}, 'every include of a file pastes the text of that file: the file table is only read by the scanner - content is neither rewritten nor moved out of it'),
                          (_c03, {'C03.f': 'C01.h'}, 'a call binds the record of the routine registered under that name; the latest definition is registered by assignment'),
                          (_c04, {'C04.e': 'C01.k'}, 'a GOTO / IF..GOTO jumps to the mark of that name in its own program: marks are kept per routine and a mark the routine does not define is rejected'),
@@ -335,7 +336,8 @@ c04 = with_shared(_c04, [(c09, {'C09.g': 'C04.l'}, 'the built-in id+int / id-int
                          (_c16, {'C16.O1': 'C04.j'}, 'a RUN of a name that is not defined earlier is rejected: the routine table is read only where the name was found, never through an inserting subscript that makes the name known'),
                          (_c03, {'C03.g': 'C04.k'}, 'every jump target is a label of the same program body: a mark that is never set is reported, which needs createLabel\'s "not set" value to be the one the tests compare with'),
                          (_c03, {'C03.f': 'C04.h'}, 'the argument-count rule is checked against the record of the latest definition of the called name'),
-                         (_c02, {'C02.e': 'C04.i'}, 'a source is accepted only if no stage recorded an error: correctness is decided after all stage errors were merged')])
+                         (_c02, {'C02.e': 'C04.i'}, 'a source is accepted only if no stage recorded an error: correctness is decided after all stage errors were merged'),
+                         (c18, {'C18.P2': 'C04.o'}, 'whether a source is accepted depends on that source alone: no stage keeps mutable state between calls (an error that is "reported once" through a static set is missing when the same source is compiled again in the same process)')])
 c05 = with_shared(_c05, [(c18, {'C18.P6': 'C05.i'}, 'arming a line rewrites opcodes in the machine\'s own copy of the program: another machine, or the caller\'s program, never sees a BREAK it did not ask for'),
                          (_c06, {'C06.b': 'C05.h'}, 'the enabled set names every armed site, so that clearing and resetting disarm all of them: an armed site that nobody lists stops a run that was asked to run through'),
                          (c08, {'C08.a': 'C05.f', 'C08.b': 'C05.f2', 'C08.c': 'C05.f3'}, 'the sites the VM rewrites are exactly the POTENTIAL_BREAK instructions the generator listed'),
@@ -371,7 +373,8 @@ c16 = with_shared(_c16, [(_c05, {'C05.b': 'C16.O7'}, 'every instruction, a break
                          (c17, {'C17.Z1': 'C16.O4', 'C17.Z4': 'C16.O10'}, 'a reset machine has no activations, so the activation bound also holds across resets; the end of the program is absorbing - '
                                'execute() only drives executeSingle() and writes no machine state itself, so a finished machine is not started again on top of its old activations'),
                          (_c03, {'C03.g': 'C16.O5'}, 'every jump is resolved to a set label of its own routine: an unresolved jump would land on the root PREPARE and push activations without bound'),
-                         (c20, {'C20.A1': 'C16.O6'}, 'register values never become negative, so a LOOP counter that is decremented reaches zero')])
+                         (c20, {'C20.A1': 'C16.O6'}, 'register values never become negative, so a LOOP counter that is decremented reaches zero'),
+                         (c18, {'C18.P2': 'C16.O12'}, 'a RUN of a name that is not (yet) defined is rejected in every compilation, not only the first one of the process: the generator keeps no mutable state between calls')])
 _c09, _c12, _c14, _c17, _c18, _c20 = c09, c12, c14, c17, c18, c20
 c09 = with_shared(_c09, [(c18, {'C18.P2': 'C09.k'}, 'the detectors that are applied are built from the definitions given to this call: nothing is kept from an earlier call'),
                          (_c12, {'C12.f': 'C09.m'}, 'every definition takes part in the choice of the next step: no definition is left without a detector, so priority decides and not the order of definition'),
